@@ -84,6 +84,18 @@ def boundary_cases(rng, tier):
         yield case(_exact_product(rng, bits, 30 if bits <= 257 else 22), f"small{bits}")     # (22: seconds of ECM otherwise)
     for bits in (64, 65, 128, 129, 192, 256, 448, 499, 500):
         yield case([gen.rand_prime(rng, bits)], f"prime{bits}")
+    # zero 64-bit limbs below a non-zero one (after seeded change C02-4: the trial division of factor() skipped a zero limb although a
+    # remainder was carried into it; every 2^k+1, k >= 129, crashed): n = a*2^(64j) + b with b < 2^64 and j = 2, 3, made a multiple of a
+    # trial-division prime p (b = -a*2^(64j) mod p) with a prime cofactor, so that the expected answer is known
+    for j in (2, 3, 4):
+        for p0 in (3, 7, 61, 199) + ((11, 101, 193) if tier != "quick" else ()):
+            for _ in range(200):
+                a = rng.getrandbits(rng.choice([1, 17, 40, 63])) | 1
+                b = (-(a << (64 * j))) % p0
+                n = (a << (64 * j)) + b
+                if n % p0 == 0 and gen.is_prime(n // p0) and n // p0 > 200:
+                    yield case([p0, n // p0], f"zero-limb{j}")
+                    break
     # prime powers: u64 perfect-power test up to 64 bits, Uint test above
     for pb, k in ((32, 2), (33, 2), (64, 2), (65, 2), (128, 2), (250, 2), (21, 3), (22, 3), (43, 3), (166, 3), (100, 5)):
         pr = gen.rand_prime(rng, pb)
